@@ -3,7 +3,7 @@
    path answers from the digit string D restricted to the view's interval.  The concrete read paths
    (At, Scan, pull iterators against the memoizer's wait) are related to this semantics in LayerC.v. *)
 From Coq Require Import ZArith List Lia Bool.
-Require Import Views.
+Require Import RunList Compute Views.
 Import ListNotations.
 Open Scope Z_scope.
 
@@ -184,7 +184,20 @@ Fixpoint run_ops (ver : Z) (d : dsrc) (st : hstate) (ops : list hop) : list Z :=
 
 (* the base Number of a history.  kind 0: test number (fixed, rep), finite type in v3 when rep = [];
    kind 1: generator-backed (raw stream), opaque in v3.  v1/v2 Numbers are always plain. *)
+(* kinds 2, 3, 4: NewNumberFromBigRat / SqrtBigRat / CubeRootBigRat of raw = [num; den]; only the first 60
+   digits are modelled (the histories generated for these bases stay below position 50 unless the number ends) *)
+Definition root_base (ver kind : Z) (raw : list Z) : val * dsrc :=
+  match raw with
+  | [num; den] =>
+    match ctor (if kind =? 2 then KRat else if kind =? 3 then KSqrt else KCube) num den 60 with
+    | RNum e ds _ => (if ver =? 3 then ON (FN SMemo e) else FN SMemo e, mkD ds [])
+    | _ => (zero, mkD [] [])
+    end
+  | _ => (zero, mkD [] [])
+  end.
+
 Definition hist_base (ver kind : Z) (raw rep : list Z) (e : Z) : val * dsrc :=
+  if 2 <=? kind then root_base ver kind raw else
   let d := if kind =? 0 then mkD raw rep else valid_prefix raw rep in
   let empty := match d_fixed d, d_rep d with [], [] => true | _, _ => false end in
   let lead0 := match d_fixed d ++ d_rep d with 0 :: _ => true | _ => false end in
